@@ -49,7 +49,8 @@ PROPS = {
     "C08": dict(modules=_mods("OHVerif.Props.C08"), groups=[("ic", 3000)], deps=[("ff", 500), ("prim", 500)]),
     "C09": dict(modules=_mods("OHVerif.Props.C09"), groups=[("lax.quot", 2000), ("lax.edit", 1000)], deps=[("ff", 400)]),
     "C10": dict(modules=_mods("OHVerif.Props.C10"), groups=[("lax.cat", 2500), ("lawlax", 1500)], deps=[("oh", 400)]),
-    "C11": dict(modules=_mods("OHVerif.Props.C11"), groups=[("lax.edit", 3000)], deps=[]),
+    "C11": dict(modules=_mods("OHVerif.Props.C11"), groups=[("lax.edit", 3000), ("lax.cat", 1500)], deps=[],
+                missing=["the JSON clause is decided by correspondence only (serde_json's text printer/parser is outside the model): the model's documented JSON text is compared with serde's output and the Rust round trip is executed"]),
     "C12": dict(modules=_mods("OHVerif.Props.C12"), groups=[("dynfunctor", 1500), ("functor", 800)], deps=[("oh", 400), ("ff", 300)]),
     "C13": dict(modules=_mods("OHVerif.Props.C13"), groups=[("dynfunctor", 2500)], deps=[("lax.cat", 400)]),
     "C14": dict(modules=_mods("OHVerif.Props.C14"), groups=[("optic", 1500)], deps=[("dynfunctor", 300), ("eval", 300)]),
@@ -75,7 +76,7 @@ ONLY = {
     "C08": r"ic\.",
     "C09": r"lax\.edit$",
     "C10": r"(lax\.(from_strict|to_strict|to_hypergraph|compose|lax_compose|tensor|tensor_assign|append|coproduct_assign|identity|twist|spider|dagger|singleton)|law\.(to_from_strict:eq|from_to_strict:lax-eq|strict_\w+))$",
-    "C11": r"lax\.edit$",
+    "C11": r"lax\.(edit|json)$",
     "C12": r"(functor\.\w+|lax\.functor\.map_arrow)$",
     "C13": r"lax\.functor\.(try_map_arrow|map_arrow_witness|map_arrow)$",
     "C14": r"(lax\.optic\.\w+|optic\.deriv)$",
